@@ -2,7 +2,7 @@
 from lib import *
 from batches import core
 
-TRUSTED = list(core.TRUSTED) + ['encoding', 'address', 'from']
+TRUSTED = list(core.TRUSTED) + ['encoding', 'address', 'from', 'CallFrameInstructionIter', 'next', 'lsda_encoding', 'personality_with_encoding', 'fde_address_encoding', 'is_signal_trampoline', 'instructions', 'lsda']
 VERUS_ARGS = ['--rlimit', '40']
 
 OWN = ['C12']
@@ -26,11 +26,15 @@ def wsource(rel, ctx):
     return Source(rel, ctx)
 
 
-def r_dyn(it, generics_old, generics_new):
+CA_BOUND = 'ConvAddr: Fn(u64) -> Option<Address>,'
+
+
+def r_dyn(it, generics_old, generics_new, where_old, where_new):
     """R-DYN: `convert_address: &dyn Fn(u64) -> Option<Address>` becomes a generic `&ConvAddr` with
     `ConvAddr: Fn(u64) -> Option<Address>` (Verus has no `dyn Fn`).  Static instead of dynamic dispatch; the body is
     unchanged.  Logged as a custom rewrite."""
     it.custom('R-DYN', generics_old, generics_new)
+    it.custom('R-DYN', where_old, where_new)
     it.custom('R-DYN', R_DYN_ADDR[0], R_DYN_ADDR[1], count=-1)
     return it
 
@@ -82,6 +86,54 @@ impl<'a, R: Reader> UnitRef<'a, R> {
 '''
 
 
+def debug_only(it):
+    """R-DERIVE: a datatype that (transitively) contains the recursive write::Expression/Operation pair keeps only
+    `derive(Debug)`: Verus rejects the derived Clone/PartialEq of mutually recursive types as a cyclic definition.  No
+    extracted function clones or compares these types."""
+    return it.custom_re('R-DERIVE', r'#\[derive\([^\]]*\)\]', '#[derive(Debug)]')
+
+
+# helper precondition of every converter: the caller's address function may be called on any address
+CA_TOTAL = 'forall|a: u64| call_requires(convert_address, (a,))'
+
+RI = 'read::CallFrameInstruction'
+# read-side instruction kinds that map to one write-side instruction (DWARF 5 6.4.2.2 - 6.4.2.4 + GNU/AArch64 extensions)
+CFI_KINDS = ['DefCfa', 'DefCfaSf', 'DefCfaRegister', 'DefCfaOffset', 'DefCfaOffsetSf', 'DefCfaExpression', 'Undefined',
+             'SameValue', 'Offset', 'OffsetExtendedSf', 'ValOffset', 'ValOffsetSf', 'Register', 'Expression',
+             'ValExpression', 'Restore', 'RememberState', 'RestoreState', 'ArgsSize', 'NegateRaState']
+
+
+def snake(n):
+    import re as _re
+    return _re.sub(r'(?<!^)([A-Z])', r'-\1', n).lower()
+
+
+def par(clauses):
+    """parenthesize every clause body (keeps `{` of patterns/blocks inside a bracket, which the runner's fn-span
+    detection relies on)"""
+    out = []
+    for c in clauses:
+        tags, expr = parse_tags(c)
+        out.append(''.join(f'[{t}]' for t in tags) + ' (' + expr + ')')
+    return out
+
+
+def cfi_instruction_clauses():
+    sem = 'read_cfi_sem(from_instruction, from_cie.caf() as int, from_cie.daf() as int)'
+    out = []
+    # 6.4.2.1: DW_CFA_set_loc has no write-side form: must fail, never be dropped
+    out.append(f'[C12:cfi-set-loc] from_instruction is SetLoc ==> res is Err')
+    # 6.4.2.1: advance_loc: location += delta * code_alignment_factor, no instruction emitted
+    out.append(f'[C12:cfi-advance-loc] from_instruction matches {RI}::AdvanceLoc {{ delta }} ==> (res is Ok ==> res == Ok::<Option<CallFrameInstruction>, ConvertError>(None) '
+               '&& *final(offset) as int == *old(offset) as int + delta as int * from_cie.caf() as int)')
+    out.append(f'[C12:cfi-nop] from_instruction is Nop ==> res == Ok::<Option<CallFrameInstruction>, ConvertError>(None) && *final(offset) == *old(offset)')
+    for k in CFI_KINDS:
+        out.append(f'[C12:cfi-{snake(k)}] from_instruction is {k} ==> (res matches Ok(r) ==> (r matches Some(w) && write_cfi_sem(w) == {sem} && *final(offset) == *old(offset)))')
+    out.append('[C12:cfi-expr] res matches Ok(Some(w)) ==> (read_cfi_expr(from_instruction) matches Some(ue) ==> (write_cfi_expr(w) matches Some(e) && '
+               '({ let s = frame.section_rv(); ue.offset + ue.length <= s.len && expr_conv(RView { root: s.root, start: s.start + ue.offset as nat, len: ue.length as nat, be: s.be }, from_cie.enc(), false, e) })))')
+    return par(out)
+
+
 def populate_write_base(ctx, sk):
     wm = wsource('write/mod.rs', ctx)
     wu = Source('write/unit.rs', ctx)
@@ -117,6 +169,25 @@ use crate::write::{ConvertError, ConvertResult, UnitId, UnitEntryId};''')
     sk.add('write::unit', nr)
 
 
+CFI_ITER_MODEL = '''
+// ---- model of read::CallFrameInstructionIter<'a, R> (read/cfi.rs; decoding is property C05/C06's business): the
+// iterator is a ghost sequence `rest()` of the instructions that still decode; `next` pops it, a decode error ends it.
+#[verifier::external_body]
+#[verifier::reject_recursive_types(R)]
+pub struct CallFrameInstructionIter<'a, R: Reader> { input: R, marker: core::marker::PhantomData<&'a R> }
+impl<'a, R: Reader<Offset = usize>> CallFrameInstructionIter<'a, R> {
+    pub uninterp spec fn rest(&self) -> Seq<CallFrameInstruction<usize>>;
+    #[verifier::external_body]
+    pub fn next(&mut self) -> (res: Result<Option<CallFrameInstruction<R::Offset>>>)
+        ensures
+            res matches Ok(Some(i)) ==> old(self).rest().len() > 0 && i == old(self).rest()[0] && final(self).rest() == old(self).rest().skip(1),
+            res matches Ok(None) ==> old(self).rest().len() == 0 && final(self).rest().len() == 0,
+            res is Err ==> final(self).rest().len() == 0,
+    { unimplemented!() }
+}
+'''
+
+
 def populate_read_cfi(ctx, sk):
     rc = Source('read/cfi.rs', ctx)
     ro = Source('read/op.rs', ctx)
@@ -147,7 +218,11 @@ use crate::vspec::*;''')
     sk.add('read::cfi', rc.item(r'^pub struct Augmentation \{').clean())
     sk.add('read::cfi', rc.item(r'^pub struct CommonInformationEntry<R, Offset').clean(offset=False, rejrec=['R', 'Offset']))
     cie = rc.item(r'^impl<R: Reader> CommonInformationEntry<R> \{\s*pub fn offset', label='CommonInformationEntry')
-    cie.keep_only(['encoding', 'code_alignment_factor', 'data_alignment_factor', 'return_address_register'])
+    cie.keep_only(['encoding', 'code_alignment_factor', 'data_alignment_factor', 'return_address_register',
+                   'lsda_encoding', 'personality_with_encoding', 'fde_address_encoding', 'is_signal_trampoline', 'instructions'])
+    # bodies outside the subset (Option::and_then / is_some_and with closures, struct literal of the iterator with borrowed
+    # parameters): read-side code of property C05; only their contracts are used here
+    cie.extbody(['lsda_encoding', 'personality_with_encoding', 'fde_address_encoding', 'is_signal_trampoline', 'instructions'])
     cie.clean(offset=False)
     cie.insert_members('''    pub closed spec fn caf(&self) -> u64 { self.code_alignment_factor }
     pub closed spec fn daf(&self) -> i64 { self.data_alignment_factor }
@@ -157,9 +232,37 @@ use crate::vspec::*;''')
     cie.splice('code_alignment_factor', ret='res', ensures=['res == self.caf()'])
     cie.splice('data_alignment_factor', ret='res', ensures=['res == self.daf()'])
     cie.splice('return_address_register', ret='res', ensures=['res == self.ra()'])
+    cie.insert_members('''    pub closed spec fn aug(&self) -> Option<Augmentation> { self.augmentation }
+    pub uninterp spec fn insn_seq(&self) -> Seq<CallFrameInstruction<usize>>;''')
+    cie.splice('lsda_encoding', ret='res', ensures=['res == (match self.aug() { Some(a) => a.lsda, None => None })'])
+    cie.splice('personality_with_encoding', ret='res', ensures=['res == (match self.aug() { Some(a) => a.personality, None => None })'])
+    cie.splice('fde_address_encoding', ret='res', ensures=['res == (match self.aug() { Some(a) => a.fde_address_encoding, None => None })'])
+    cie.splice('is_signal_trampoline', ret='res', ensures=['res == (match self.aug() { Some(a) => a.is_signal_trampoline, None => false })'])
+    cie.splice('instructions', ret='res', ensures=['res.rest() == self.insn_seq()'])
     cie.own(['C05'])
     sk.add('read::cfi', cie)
     sk.add('read::cfi', rc.item(r'^pub enum CallFrameInstruction<T: ReaderOffset>').clean(rejrec=['T']))
+    sk.add('read::cfi', CFI_ITER_MODEL, label='CallFrameInstructionIter(model)')
+    sk.add('read::cfi', rc.item(r'^pub struct SectionBaseAddresses \{').clean())
+    sk.add('read::cfi', rc.item(r'^pub struct BaseAddresses \{').clean())
+    sk.add('read::cfi', rc.item(r'^struct AugmentationData \{').clean())
+    sk.add('read::cfi', rc.item(r'^pub struct FrameDescriptionEntry<R, Offset').clean(offset=False, rejrec=['R', 'Offset']))
+    fde = rc.item(r'^impl<R: Reader> FrameDescriptionEntry<R> \{', label='FrameDescriptionEntry')
+    fde.keep_only(['cie', 'instructions', 'initial_address', 'len', 'lsda'])
+    fde.extbody(['instructions', 'lsda'])
+    fde.clean(offset=False)
+    fde.insert_members('''    pub closed spec fn cie_v(&self) -> CommonInformationEntry<R> { self.cie }
+    pub closed spec fn initial(&self) -> u64 { self.initial_address }
+    pub closed spec fn range(&self) -> u64 { self.address_range }
+    pub closed spec fn lsda_v(&self) -> Option<Pointer> { match self.augmentation { Some(a) => a.lsda, None => None } }
+    pub uninterp spec fn insn_seq(&self) -> Seq<CallFrameInstruction<usize>>;''')
+    fde.splice('cie', ret='res', ensures=['*res == self.cie_v()'])
+    fde.splice('initial_address', ret='res', ensures=['res == self.initial()'])
+    fde.splice('len', ret='res', ensures=['res == self.range()'])
+    fde.splice('lsda', ret='res', ensures=['res == self.lsda_v()'])
+    fde.splice('instructions', ret='res', ensures=['res.rest() == self.insn_seq()'])
+    fde.own(['C05'])
+    sk.add('read::cfi', fde)
     sk.add('read::cfi', rc.item(r'^pub struct UnwindExpression<T: ReaderOffset>').clean(rejrec=['T']))
     ue = rc.item(r'^impl<T: ReaderOffset> UnwindExpression<T> \{', label='UnwindExpression')
     ue.custom('R-CLONE', 'section.section().clone()', 'reader_clone(section.section())')
@@ -186,10 +289,12 @@ use crate::vspec::*;
 use crate::cspec::*;''')
     CONV = r'^pub\(crate\) mod convert \{'
     ex = wo.item(r'^    impl Expression \{', within=CONV, label='Expression')
-    r_dyn(ex, 'fn from<R: Reader<Offset = usize>>(', 'fn from<R: Reader<Offset = usize>, ConvAddr: Fn(u64) -> Option<Address>>(')
+    r_dyn(ex, 'fn from<R: Reader<Offset = usize>>(', 'fn from<R: Reader<Offset = usize>, ConvAddr>(', ') -> ConvertResult<Expression> {', ') -> ConvertResult<Expression> where ' + CA_BOUND + ' {')
     ex.extbody(['from'])
     ex.clean()
     ex.own(OWN)
+    ex.splice('from', ret='res', requires=[CA_TOTAL], ensures=[
+        '[C12:expr-conv] res matches Ok(e) ==> expr_conv(from_expression.0.rv(), encoding, unit is Some, e)'])
     sk.add('write::op::convert', ex)
 
 
@@ -199,8 +304,8 @@ def populate_write_cfi(ctx, sk):
     sk.module('write::op', '''use crate::common::{Encoding, Register, DebugInfoOffset};
 use crate::constants::{self, DwOp};
 use crate::write::{Address, DebugInfoRef, UnitEntryId};''')
-    sk.add('write::op', wo.item(r'^pub struct Expression \{').clean())
-    sk.add('write::op', wo.item(r'^enum Operation \{').clean())
+    sk.add('write::op', debug_only(wo.item(r'^pub struct Expression \{')).clean())
+    sk.add('write::op', debug_only(wo.item(r'^enum Operation \{')).clean())
     sk.module('write::cfi', '''use crate::common::{Encoding, Format, Register};
 use crate::constants;
 use crate::write::{Address, Error, Expression, Result};''')
@@ -209,24 +314,28 @@ use crate::read::{self, Reader};
 use crate::write::{ConvertError, ConvertResult, NoConvertDebugInfoRef};
 use crate::vspec::*;
 use crate::cspec::*;''')
-    sk.add('write::cfi', wc.item(r'^pub struct CommonInformationEntry \{').clean())
+    sk.add('write::cfi', debug_only(wc.item(r'^pub struct CommonInformationEntry \{')).clean())
     cn = wc.item(r'^impl CommonInformationEntry \{', label='CommonInformationEntry')
     cn.keep_only(['new'])
     cn.clean()
     cn.own(OWN)
     sk.add('write::cfi', cn)
-    sk.add('write::cfi', wc.item(r'^pub struct FrameDescriptionEntry \{').clean())
+    sk.add('write::cfi', debug_only(wc.item(r'^pub struct FrameDescriptionEntry \{')).clean())
     fn = wc.item(r'^impl FrameDescriptionEntry \{', label='FrameDescriptionEntry')
     fn.keep_only(['new'])
     fn.clean()
     fn.own(OWN)
     sk.add('write::cfi', fn)
-    sk.add('write::cfi', wc.item(r'^pub enum CallFrameInstruction \{').clean())
+    sk.add('write::cfi', debug_only(wc.item(r'^pub enum CallFrameInstruction \{')).clean())
     CONV = r'^pub\(crate\) mod convert \{'
     ci = wc.item(r'^    impl CallFrameInstruction \{', within=CONV, label='CallFrameInstruction')
-    r_dyn(ci, 'fn from<R, Section>(', 'fn from<R, Section, ConvAddr: Fn(u64) -> Option<Address>>(')
+    r_dyn(ci, 'fn from<R, Section>(', 'fn from<R, Section, ConvAddr>(', 'where\n            R: Reader<Offset = usize>,', 'where\n            ' + CA_BOUND + '\n            R: Reader<Offset = usize>,')
     ci.clean()
     ci.own(OWN)
+    # the closure gets its parameter type and a contract (insertions only): it returns what Expression::from returns
+    ci.insert_after('let convert_expression = |x|', ' -> (cr: ConvertResult<Expression>)\n requires CA_TOTAL\n ensures cr matches Ok(e) ==> expr_conv(x.0.rv(), from_cie.enc(), false, e)\n'.replace('CA_TOTAL', CA_TOTAL))
+    ci.insert_after('let convert_expression = |x', ': read::Expression<R>')
+    ci.splice('from', ret='res', requires=[CA_TOTAL], ensures=cfi_instruction_clauses())
     sk.add('write::cfi::convert', ci)
 
 
